@@ -363,8 +363,11 @@ impl Lab {
             }
             Op::Poll(r) => {
                 let Some(Some(fut)) = self.futs.get_mut(r) else { return false };
-                let wk = self.wakers[r].clone();
-                let wakes = wk.wakes.swap(0, Ordering::SeqCst);
+                // a fresh waker for every poll: only wake-ups of the most recent waker count (a future has to
+                // re-register with the waker of its latest poll), wake-ups of an outdated one are lost
+                let wakes = self.wakers[r].wakes.swap(0, Ordering::SeqCst);
+                let wk = Arc::new(CountWake { wakes: AtomicU32::new(0) });
+                self.wakers[r] = wk.clone();
                 let (before, polls_before) = {
                     let mut w = lock(&self.world);
                     let b = (w.reqs[r].state, w.reqs[r].polls);
